@@ -304,10 +304,10 @@ func monitorWu(c wuCase, o wuObs, rep *emit.Report) (nontrivial bool) {
 			return
 		}
 		reported[sig] = true
-		rep.Fail(c.ID, clause, sig, fmt.Sprintf("op %d (t=%d): ", i, c.Ops[i].Ms)+fmt.Sprintf(format, a...), c)
+		reportFail(rep, c.ID, clause, sig, fmt.Sprintf("op %d (t=%d): ", i, c.Ops[i].Ms)+fmt.Sprintf(format, a...), c)
 	}
 	if int64(o.CF) != cf {
-		rep.Fail(c.ID, "C11_wu_constants", "cold-factor-default", fmt.Sprintf("cold factor in force %d, expected %d", o.CF, cf), c)
+		reportFail(rep, c.ID, "C11_wu_constants", "cold-factor-default", fmt.Sprintf("cold factor in force %d, expected %d", o.CF, cf), c)
 		return
 	}
 	if math.IsNaN(T) || math.IsInf(T, 0) {
@@ -333,11 +333,11 @@ func monitorWu(c wuCase, o wuObs, rep *emit.Report) (nontrivial bool) {
 		dx := new(big.Rat).Quo(new(big.Rat).Mul(ratI(2*int64(c.Period)), rat(T)), ratI(cf+1))
 		lo := func(x *big.Rat) int64 { f, _ := x.Float64(); return int64(math.Floor(f)) }
 		if d := W - lo(wx); d < -1 || d > 1 {
-			rep.Fail(c.ID, "C11_wu_constants", "warning-token-off", fmt.Sprintf("warningToken %d, p*T/(cf-1) = %s", W, wx.FloatString(3)), c)
+			reportFail(rep, c.ID, "C11_wu_constants", "warning-token-off", fmt.Sprintf("warningToken %d, p*T/(cf-1) = %s", W, wx.FloatString(3)), c)
 			return
 		}
 		if d := (M - W) - lo(dx); d < -1 || d > 1 {
-			rep.Fail(c.ID, "C11_wu_constants", "max-token-off", fmt.Sprintf("maxToken-warningToken %d, 2*p*T/(cf+1) = %s", M-W, dx.FloatString(3)), c)
+			reportFail(rep, c.ID, "C11_wu_constants", "max-token-off", fmt.Sprintf("maxToken-warningToken %d, 2*p*T/(cf+1) = %s", M-W, dx.FloatString(3)), c)
 			return
 		}
 	}
